@@ -277,3 +277,56 @@ pub fn crc_step(crc: u8) -> u8 {
         crc << 1
     }
 }
+
+pub fn from_fn_array(uuid: &[u8; 4], h: u8) -> [u8; 5] {
+    core::array::from_fn(|i| uuid.get(i).copied().unwrap_or(h))
+}
+
+pub fn ok_or_else_closure(p: &[u8]) -> Result<u8, u16> {
+    let v = p.first().copied().ok_or_else(|| 7u16)?;
+    Ok(v)
+}
+
+pub fn rev_zip(dst: &mut [u8; 4], words: &[u16; 2]) {
+    for (c, w) in dst.chunks_mut(2).zip(words.iter().rev()) {
+        c.copy_from_slice(&w.to_be_bytes());
+    }
+}
+
+pub fn mem_replace(a: &mut [u8; 2], b: [u8; 2]) -> u8 {
+    let old = core::mem::replace(a, b);
+    old[0]
+}
+
+pub fn clone_from(a: &mut [u8; 3], b: &[u8]) {
+    if b.len() == 3 {
+        a.clone_from_slice(b);
+    }
+}
+
+pub fn zip_chain(dst: &mut [u8; 5], a: &[u8; 2], b: &[u8; 3]) {
+    for (d, s) in dst.iter_mut().zip(a.iter().chain(b.iter())) {
+        *d = *s;
+    }
+}
+
+pub fn zip_once_flat(dst: &mut [u8; 5], n: u8, e: &[[u8; 2]; 2]) {
+    for (d, s) in dst
+        .iter_mut()
+        .zip(core::iter::once(n).chain(e.iter().flat_map(|x| x.iter().copied())))
+    {
+        *d = s;
+    }
+}
+
+pub fn zip_copied_for_each(dst: &mut [u8; 6], part: &[u8; 4]) -> usize {
+    let (dest, rest) = dst.split_at_mut(part.len());
+    dest.iter_mut()
+        .zip(part.iter().copied())
+        .for_each(|(d, s)| *d = s);
+    rest.len() + part.iter().copied().len()
+}
+
+pub fn cloned_fold(src: &[u8; 3]) -> u8 {
+    src.iter().cloned().fold(0u8, |a, b| a ^ b)
+}
